@@ -125,7 +125,9 @@ WORDS = ["solo", "soloend", "soloing", "section", "lyric", "phrase_start", "phra
 # typographic quotes, escaped quotes, "Artist - Title" separators, HTML entities, shell/template sigils
 MARKUP = ["%", "%s", "%d", "100%", "%%", "%(x)s", "{0}", "{}", "{x}", "$", "${x}", "$1", "&", "&amp;", "<", ">", "<b>", "</b>", "<i>",
           "<color=#00FF00>", "</color>", "<size=10>", "\u201c", "\u201d", "\u201e", "\u201f", "\u2018", "\u2019", "\u00ab", "\u00bb",
-          " - ", " \u2013 ", "\\\"", "\\n", "\\t", "\\\\", "|", "~", "^", "`", "@", "*", "!", "?", ":", "+", "_"]
+          " - ", " \u2013 ", "\\\"", "\\n", "\\t", "\\\\", "|", "~", "^", "`", "@", "*", "!", "?", ":", "+", "_",
+          # pattern / replacement syntax (to code that interpolates chart text into a regular expression or a re.sub replacement)
+          "\\1", "\\g<0>", "\\0", ".*", "(?i)", "[a-z]", "(", ")", "a|b", "\\b", "\\d+", "$1"]
 TEXT_ALPHABET = ["a", "b", "Z", "1", " ", " ", "\"", "=", "[", "]", "{", "}", "\\", "\t", "\u00a0", "\u3000", "\u00e9", "e\u0301", "\u212b",
                  "\u00df", "\u4e16", "lyric", "section", "lyric ", "section ", "LYRIC ", "Section ", "-", "'", ",", ".", "E"] * 2 + MARKUP
 VALUE_ALPHABET = ["a", "b", "Q", "7", " ", "\"", "=", ",", "\t", "\u00e9", "\u4e16", "'", "-", ".", "(", ")", "\u00a0",
